@@ -73,6 +73,7 @@ class EngineE:
             if op == "sptendiag" and g.random() < 0.3:
                 els[g.randrange(n)] = 0.0
             step["elements"] = els
+            step["order"] = g.choice(["F", "C"])
             k = g.choice(["none", "exact", "shorter", "longer", "mixed"])
             N = g.randint(1, 3) if k != "none" else n
             if k == "none":
@@ -90,6 +91,7 @@ class EngineE:
         elif op == "teneye":
             step["ndims"], step["size"] = g.choice([(2, 1), (2, 2), (2, 3), (2, 4), (4, 1), (4, 2), (4, 3), (6, 2)])
             step["xs"] = [[round(g.uniform(-1, 1), 6) or 0.5 for _ in range(step["size"])] for _ in range(3)]
+            step["order"] = g.choice(["F", "C"])
         elif op == "tensor_from_function":
             step["shape"] = self._shape(g)
             step["fn"] = g.choice(["arange_1d", "arange_F", "arange_C", "ones_F", "const_1d"])
@@ -284,7 +286,7 @@ class EngineE:
 
     def _do_tendiag(self, step, V, res, tol):
         shape, want = self._diag_expect(step)
-        T = self.ttb.tendiag(np.array(step["elements"]), None if step["shape"] is None else tuple(step["shape"]))
+        T = self.ttb.tendiag(np.array(step["elements"]), None if step["shape"] is None else tuple(step["shape"]), order=step.get("order", "F"))
         if tuple(T.shape) != shape or T.data.shape != shape:
             return V("exact_shape", f"tendiag shape {T.shape}, expected {shape}")
         if not np.array_equal(T.data, want):
@@ -310,7 +312,7 @@ class EngineE:
 
     def _do_teneye(self, step, V, res, tol):
         nd, size = step["ndims"], step["size"]
-        T = self.ttb.teneye(nd, size)
+        T = self.ttb.teneye(nd, size, order=step.get("order", "F"))
         if tuple(T.shape) != (size,) * nd:
             return V("exact_shape", f"teneye shape {T.shape}")
         for x in step["xs"]:
